@@ -74,10 +74,11 @@ API summary
     audit_object(obj)                        real (uncooperative) locks reachable from obj, should be []
     C* classes                               the cooperative primitives, usable directly in harness code
 
-Throughput (2 threads x ~10 lines each, measured on a machine with load average ~40): about 2000
-schedules/s with reuse_threads=True, about 50/s with fresh OS threads per run (thread start latency
-dominates under load; on an idle machine fresh threads give roughly 1000/s).  Use reuse_threads=True
-unless the code under test keys state on the thread (CurrentThreadScheduler, threading.local).
+Throughput (SingleAssignmentDisposable.set_disposable || dispose, 18 steps per run, one process):
+about 2500 schedules/s with reuse_threads=True and about 370/s with fresh OS threads per run on an idle
+machine; at load average ~40 these drop to about 1000-2000/s and 50/s (thread start latency dominates).
+Use reuse_threads=True unless the code under test keys state on the thread (CurrentThreadScheduler,
+threading.local).
 
 CPython 3.12 note: settrace is built on interpreter-wide sys.monitoring events.  Changing that event set
 while a thread sits inside traced code can crash the interpreter, so run_program keeps a do-nothing
